@@ -216,6 +216,17 @@ def corpus():
             dict(kind='S', cfg=cfg, prog=[['add', 0, 1, {'a': 1}], ['add', 1, 1, {'a': 0}], ['commit'], ['set', 1, 1, {'a': 2}], ['flush'],
                                           ['sp_begin'], ['set', 0, 1, {'a': 3}], ['flush'], ['sp_rollback'], ['set', 0, 1, {'a': 4}],
                                           ['commit']]),
+            # the unit of work owns a record but no operation when the savepoint begins (relationship-only flush / a
+            # hand-made record); the savepoint is rolled back; the transaction goes on: still ONE record
+            dict(kind='S', cfg=cfg, prog=[['add', 0, 1, {'a': 1}], ['add', 2, 1, {'a': 0}], ['commit'], ['link', 1, 1], ['flush'],
+                                          ['sp_begin'], ['set', 0, 1, {'a': 2}], ['flush'], ['sp_rollback'], ['set', 0, 1, {'a': 3}],
+                                          ['flush'], ['commit']]),
+            dict(kind='S', cfg=cfg, prog=[['add', 0, 1, {'a': 1}], ['commit'], ['manualtx'], ['sp_begin'], ['set', 0, 1, {'a': 2}],
+                                          ['flush'], ['sp_rollback'], ['set', 0, 1, {'a': 3}], ['commit']]),
+            # a Core statement on the association table inside a savepoint that is rolled back: no association version
+            dict(kind='S', cfg=cfg, prog=[['add', 0, 1, {'a': 1}], ['add', 2, 2, {'a': 0}], ['commit'], ['set', 0, 1, {'a': 2}], ['flush'],
+                                          ['sp_begin'], ['rawlink', 1, 2], ['sp_rollback'], ['set', 0, 1, {'a': 3}], ['flush'],
+                                          ['commit']]),
             # a released savepoint, then the outer transaction rolled back, then the session goes on
             dict(kind='S', cfg=cfg, prog=[['add', 0, 1, {'a': 1}], ['add', 0, 2, {'a': 1}], ['commit'], ['set', 0, 1, {'a': 2}], ['flush'],
                                           ['sp_begin'], ['set', 0, 2, {'a': 2}], ['flush'], ['sp_release'], ['rollback'],
